@@ -141,6 +141,13 @@ static void on_signal(int sig) {
   char b[64]; snprintf(b, sizeof b, "process received signal %d (%s)", sig, strsignal(sig));
   emergency(crash_prop(), sig == SIGABRT ? "abort" : "crash_signal", b);
 }
+// lcdb's own assertions (FEAT=assert builds): report the failed expression instead of a bare SIGABRT
+extern "C" void __wrap___assert_fail(const char *expr, const char *file, unsigned line, const char *func) {
+  char b[600]; snprintf(b, sizeof b, "assertion failed inside lcdb: %s:%u: %s: `%s'", file ? file : "?", line, func ? func : "?", expr ? expr : "?");
+  fprintf(stderr, "%s\n", b);
+  emergency(crash_prop(), "assertion", b);
+  _exit(3);
+}
 extern "C" void __sanitizer_set_death_callback(void (*)(void)) __attribute__((weak));
 static void on_sanitizer_death() { emergency(crash_prop(), "sanitizer_report", "sanitizer reported an error (see stderr of the worker)"); }
 
